@@ -73,6 +73,14 @@ func C05(c *core.Ctx) {
 		hdr := append([]byte{0x30}, refcodec.VarLen(n)...)
 		streams = append(streams, append(hdr, 0x00, 0x01, 'w', 'x', 'y'))
 	}
+	// a remaining-length field of five bytes (MQTT 3.1.1 allows four): as a first packet and
+	// behind a CONNECT, announcing 512 MiB, 256 MiB + 1 and 12 bytes (not the 32 GiB that ff ff ff ff 7f announces:
+	// a tree that accepts such a field really allocates and copies what it announces)
+	for _, t := range []byte{0x10, 0x30} {
+		for _, lf := range [][]byte{{0x80, 0x80, 0x80, 0x80, 0x02}, {0x80, 0x80, 0x80, 0x80, 0x01}, {0x8c, 0x80, 0x80, 0x80, 0x00}} {
+			streams = append(streams, append(append([]byte{t}, lf...), 0x00, 0x04, 'M', 'Q', 'T', 'T', 0x04, 0x02, 0x00, 0x3c, 0x00, 0x00))
+		}
+	}
 	// well-formed publishes the broker cannot route (topics starting with '$'): the error
 	// paths of the fan-out, with and without a QoS handshake
 	for _, q := range []byte{0, 1, 2} {
